@@ -25,7 +25,7 @@ def chk(fn, props, nr, ns, tier, timeout, vmax=2):
     return Group("exact/%s_%dx%d%s" % (fn, nr, ns, "" if vmax == 2 else "_v%d" % vmax), "exact_checkers.c", tus=["exact.c", "lpdata_mpq.c", "allocrus.c"], model=MODEL,
                  defines=["FN_" + fn, "NR=%d" % nr, "NS=%d" % ns, "VMAX=%d" % vmax] + EXACT, dfcc=False, unwind=2 * (nr + ns) + 2, kind="bounded", bound=bound,
                  timeout=timeout, tier=tier, must_fail=["reach_end", "reach_accept", "reach_reject"],
-                 functions=["QSexact_optimal_test" if fn == "opttest" else "QSexact_infeasible_test"], props=props, assumed=[CHK_ASSUMED])
+                 functions=["QSexact_optimal_test" if fn == "opttest" else "QSexact_infeasible_test"], props=props + ["C17"], assumed=[CHK_ASSUMED])
 
 
 GROUPS = [
